@@ -37,7 +37,10 @@ fn drive(spec: &ExchangeSpec, s: &mut Sched, follow: Option<RedirectAuthHeaders>
             let _ = state;
             return Ok(());
         }
-        Outcome::FollowedWithoutInheritedExpect => return Err("harness: outcome of a followed flow on a fresh one".into()),
+        Outcome::NotCompared(why) => {
+            st.class(why);
+            return Ok(());
+        }
     };
     st.evals(1);
     check_against_truth(spec, &obs, true, stream.len())?;
@@ -134,7 +137,7 @@ fn drive(spec: &ExchangeSpec, s: &mut Sched, follow: Option<RedirectAuthHeaders>
                                             st.class("followed_flow_completed");
                                         }
                                         Outcome::Premature(_) => return Err("harness: premature in followed flow".into()),
-                                        Outcome::FollowedWithoutInheritedExpect => st.class("followed_request_without_the_inherited_expect"),
+                                        Outcome::NotCompared(why) => st.class(why),
                                     }
                                     st.evals(1);
                                 }
